@@ -327,6 +327,15 @@ func (cr *classResolver) classOf1(v ssa.Value) classSet {
 		sites := cr.w.callers[fn]
 		for _, site := range sites {
 			if site.Parent().Synthetic != "" {
+				// a method value: its other parameters are the wrapper's, fed by the wrapper's callers
+				if idx > 0 && strings.HasPrefix(site.Parent().Synthetic, "bound method wrapper") {
+					for _, s2 := range cr.w.callers[site.Parent()] {
+						a2 := s2.Common().Args
+						if idx-1 < len(a2) && !s2.Common().IsInvoke() {
+							cs.union(cr.classOf(a2[idx-1]))
+						}
+					}
+				}
 				// receiver of a method value: what the closures made from the bound wrapper bind
 				if idx == 0 && strings.HasPrefix(site.Parent().Synthetic, "bound method wrapper") {
 					for _, g := range cr.w.ModFns {
